@@ -51,6 +51,9 @@ sl = {"algo": "path", "R": ["s0"], "f": "s2", "edges": [["s0", "s0"], ["s0", "s1
       "final": ["s0", "s1", "s2"], "schedule": [["pop", "s0", "s0"], ["edge", "s0", "s1"], ["edge", "s0", "s0"],
                                                 ["pop", "s1", "s1"], ["edge", "s1", "s0"], ["edge", "s1", "s2"]]}
 out += [e for e in schedule_replay.replay_line(sl) if e["op"] == "path_trace"]
+from gambatools.nfa import NFA
+Nsim = NFA({"s0", "s1"}, {"a"}, {("s0", "e"): {"s0", "s1"}}, "s0", {"s1"}, "e")
+out += [e for e in c15.fa_events(Nsim, "nfa", 0, {"kind": "selftest"}, {"t": 5, "skipped": 0}) if not e["isnone"]][:1]
 print(json.dumps(out))
 ''' % common.VERIF
     p = subprocess.run([common.PY, "-c", code], env=common.worker_env(0), stdout=subprocess.PIPE,
@@ -108,6 +111,10 @@ def corrupt(e):
         del c["plines"][tr[-1]]              # the printer forgot one edge line
     elif op == "derive":
         c["seq"][1], c["seq"][2] = c["seq"][2], c["seq"][1]        # two sentential forms exchanged
+    elif op == "sim_fa":
+        # still a VALID run (the epsilon self-loop is a move) but not one nfa_simulate_word can build: a segment is a
+        # branch of a search tree and visits no state twice - only the binding clause of NfaSim.tla can reject it
+        c["run"] = [c["run"][0]] + c["run"]
     elif op == "parser_replay":
         c["exc"] = "none"                    # the parser accepted what the model rejects
     elif op == "iso":
